@@ -23,7 +23,10 @@ Record bbranch := BB {
 Record bcase := BC {
   bc_assert : bool;  bc_n : nat;
   bc_prefix : list bop;  bc_pre : blinks;  bc_pre_off : blinks;
-  bc_branches : list bbranch
+  bc_branches : list bbranch;
+  bc_lib : bool          (* C20 only: a battery of library calls (iterators, print_tree, exports, clone, copy,
+                            prune, derived queries, name / val / extra attributes) on the final binary trees of
+                            every branch gave equal results in the two interpreters; `true` otherwise *)
 }.
 
 (* abbreviation used by the emitter for the common shape (two slots, both getters returned the slot
@@ -127,7 +130,8 @@ Definition check_C20_binary (c : bcase) : nat :=
   flag (negb (agree_state sm_on (bc_pre c)) || negb (agree_state sm_off (bc_pre_off c))
         || existsb (fun b => negb (agree_trace on sm_on (bb_ops b) (bb_on b))
                              || negb (agree_trace off sm_off (bb_ops b) (bb_off b))) live) F_DISAGREE
-  + flag (negb (links_eqb (bc_pre c) (bc_pre_off c))
+  + flag (negb (bc_lib c)
+          || negb (links_eqb (bc_pre c) (bc_pre_off c))
           || existsb (fun b => all_accepted (bb_on b) && negb (traces_eqb (bb_on b) (bb_off b)))
                      (bc_branches c)) F_PROPFAIL
   + flag (Nat.ltb (length live) (length (bc_branches c))) F_SKIP.
